@@ -102,3 +102,53 @@ Check c05_hook_is_call_verbatim :
   ClientTables.gen_call_body = ClientTables.gen_call_generic_body /\ ClientTables.gen_connect_client = ClientTables.gen_hook_client /\
   ClientTables.gen_call_body <> "<missing>"%string /\ ClientTables.gen_connect_client <> nil.
 Print Assumptions c05_hook_is_call_verbatim.
+
+(* ---- the property's first sentence, end to end (E2EGen.v), for ANY language of server responses that the parser round-trips
+   (enc: any relation between values and byte strings with parse (w ++ rest) = Ok rest v |w|; Properties/C03.v instantiates
+   it with the RFC spellings of every response kind, Spec.enc_response).  The k-th command is answered by responses that
+   are not a completion carrying its tag, followed by one that is; the transport cuts the bytes anywhere and answers
+   not-ready whenever it likes, with any write / flush schedule; the streams are polled until they end.  Then the k-th
+   stream hands out exactly the k-th answer -- in wire order, value for value and byte for byte, ending with its own
+   completion -- and every later byte was left for the later commands; at the end nothing is left in the buffer. *)
+From TI Require Import E2EGen.
+Theorem c05_conversation : forall (enc : val -> list byte -> Prop),
+  (forall v w, enc v w -> forall rest, parse (w ++ rest) = ROk rest v (nlen w)) ->
+  forall answers ops c c' started outs,
+  session ops c = (c', started, outs) ->
+  c_rf c = rf_init -> data_only (io_rd (c_io c)) -> bytes_of (io_rd (c_io c)) = wire (List.concat answers) ->
+  E2EGen.conformant enc (List.concat answers) ->
+  c_next c + N.of_nat (length ops) <= Tags.U64_MAX ->
+  Forall2 answer_for (tags_from (c_next c) (length ops)) answers ->
+  Forall (In PNone) outs ->
+  map frames_of outs = map expected answers /\ rf_buf (c_rf c') = [].
+Proof. exact E2EGen.conversation_lemma. Qed.
+Check c05_conversation : forall (enc : val -> list byte -> Prop),
+  (forall v w, enc v w -> forall rest, parse (w ++ rest) = ROk rest v (nlen w)) ->
+  forall answers ops c c' started outs,
+  session ops c = (c', started, outs) ->
+  c_rf c = rf_init -> data_only (io_rd (c_io c)) -> bytes_of (io_rd (c_io c)) = wire (List.concat answers) ->
+  E2EGen.conformant enc (List.concat answers) ->
+  c_next c + N.of_nat (length ops) <= Tags.U64_MAX ->
+  Forall2 answer_for (tags_from (c_next c) (length ops)) answers ->
+  Forall (In PNone) outs ->
+  map frames_of outs = map expected answers /\ rf_buf (c_rf c') = [].
+Print Assumptions c05_conversation.
+
+(* whole sessions, streams abandoned anywhere: all frames handed out, in order, are exactly the first responses sent *)
+Theorem c05_conformant_session : forall (enc : val -> list byte -> Prop),
+  (forall v w, enc v w -> forall rest, parse (w ++ rest) = ROk rest v (nlen w)) ->
+  forall s ops c c' started outs,
+  E2EGen.conformant enc s -> c_rf c = rf_init -> data_only (io_rd (c_io c)) -> bytes_of (io_rd (c_io c)) = wire s ->
+  session ops c = (c', started, outs) ->
+  exists s1 s2, s = s1 ++ s2 /\ frames_of (List.concat outs) = expected s1 /\
+                rf_buf (c_rf c') ++ bytes_of (io_rd (c_io c')) = wire s2.
+Proof. exact E2EGen.conformant_session_lemma. Qed.
+Check c05_conformant_session : forall (enc : val -> list byte -> Prop),
+  (forall v w, enc v w -> forall rest, parse (w ++ rest) = ROk rest v (nlen w)) ->
+  forall s ops c c' started outs,
+  E2EGen.conformant enc s -> c_rf c = rf_init -> data_only (io_rd (c_io c)) -> bytes_of (io_rd (c_io c)) = wire s ->
+  session ops c = (c', started, outs) ->
+  exists s1 s2, s = s1 ++ s2 /\ frames_of (List.concat outs) = expected s1 /\
+                rf_buf (c_rf c') ++ bytes_of (io_rd (c_io c')) = wire s2.
+Print Assumptions c05_conformant_session.
+
